@@ -12,7 +12,7 @@ NCPU = os.cpu_count() or 4
 
 
 class Result(object):
-    __slots__ = ('rc', 'sig', 'out', 'err', 'timed_out', 'dur', 'san', 'steps', 'step_sites', 'budget_hit', 'cmd')
+    __slots__ = ('rc', 'sig', 'out', 'err', 'timed_out', 'dur', 'san', 'steps', 'step_sites', 'budget_hit', 'cmd', 'cpu')
 
     def __repr__(self):
         return 'Result(rc=%r sig=%r san=%r timed_out=%r steps=%r)' % (self.rc, self.sig, self.san, self.timed_out, self.steps)
@@ -120,16 +120,52 @@ def run(cmd, cwd=None, env=None, timeout=60, stdin=None, cpu=None, mem_mb=None, 
     try:
         p = subprocess.Popen(cmd, cwd=cwd, env=e, stdin=subprocess.PIPE if stdin is not None else subprocess.DEVNULL,
                              stdout=outf, stderr=errf, preexec_fn=pre)
-        try:
-            p.communicate(stdin if stdin is None or isinstance(stdin, bytes) else stdin.encode(), timeout=timeout)
-        except subprocess.TimeoutExpired:
-            r.timed_out = True
+        r.cpu = None
+        if stdin is None:
+            # wait4 gives the child's own CPU time (user+sys): a load-independent clock for scaling oracles
+            deadline = time.time() + timeout
+            status = None
+            while True:
+                try:
+                    pid, st, ru = os.wait4(p.pid, os.WNOHANG)
+                except ChildProcessError:
+                    pid, st, ru = p.pid, 0, None
+                if pid == p.pid:
+                    status = st
+                    if ru is not None:
+                        r.cpu = ru.ru_utime + ru.ru_stime
+                    break
+                if time.time() > deadline:
+                    r.timed_out = True
+                    try:
+                        os.killpg(p.pid, signal.SIGKILL)
+                    except OSError:
+                        pass
+                    try:
+                        pid, status, ru = os.wait4(p.pid, 0)
+                        r.cpu = ru.ru_utime + ru.ru_stime
+                    except ChildProcessError:
+                        status = -signal.SIGKILL
+                    break
+                time.sleep(0.004)
+            if status is None:
+                rc = -9
+            elif os.WIFSIGNALED(status):
+                rc = -os.WTERMSIG(status)
+            else:
+                rc = os.WEXITSTATUS(status)
+            p.returncode = rc
+        else:
             try:
-                os.killpg(p.pid, signal.SIGKILL)
-            except OSError:
-                pass
-            p.wait()
-        rc = p.returncode
+                p.communicate(stdin if isinstance(stdin, bytes) else stdin.encode(), timeout=timeout)
+            except subprocess.TimeoutExpired:
+                r.timed_out = True
+                try:
+                    os.killpg(p.pid, signal.SIGKILL)
+                except OSError:
+                    pass
+                p.wait()
+            rc = p.returncode
     finally:
         outf.seek(0)
         errf.seek(0)
